@@ -49,6 +49,11 @@ class Stall(Exception):
 STALL_CPU_S = 30.0
 
 
+def _ascii_locale():
+    import locale
+    return locale.getpreferredencoding(False).lower().replace("-", "") in ("ascii", "ansi_x3.41968", "usascii", "646")
+
+
 class Ctx(object):
     def __init__(self, prop, tier, seed, shard, nshards, repo, scratch, params=None, hashseed=None):
         self.prop = prop
@@ -198,6 +203,7 @@ class Ctx(object):
                 "seed": self.seed,
                 "shard": self.shard,
                 "hashseed": self.hashseed,
+                "ascii_locale": _ascii_locale(),
             })
 
     # ---- result -----------------------------------------------------------
